@@ -267,7 +267,7 @@ static void history(long caseno) {
 
 int main(int argc, char **argv) {
     vf_init(argc, argv, "h_vector");
-    vf_errno_entry = 1; vf_op_budget_ms = 10000;   /* stale errno on entry of every logged operation; a call that never returns is hang:operation */
+    vf_errno_entry = 1; vf_op_budget_ms = VF.thorough ? 120000 : 10000;   /* stale errno on entry of every logged operation; a call that never returns is hang:operation */
     vf_errno_noise_every = 5;   /* every fifth case: successful allocations leave errno = ENOMEM behind (glibc does when brk fails) */
     P = atoi(VF.prop + 1);
     if (P != 10 && P != 11) { fprintf(stderr, "h_vector: unsupported property %s\n", VF.prop); return 2; }
